@@ -7,6 +7,10 @@
 //	          end it overwrites <file> (if it exists) with content <v> — a formatter, a generator.  A task is hashed when
 //	          its turn comes, so the inputs it is judged on (INP) are those it SAW then: the tree after the effects of
 //	          the commands that ran before it in this invocation (reference snapshots taken after every Runner call).
+//	y.<Task>  toggles another side effect (in-process mode): the task's command REMOVES THE CACHE (`rm -rf .spok`, a
+//	          home-made clean task) when it runs to its end.  Reported as CR R<j> (the j-th command of the invocation did
+//	          it): from then on the cache has been removed — nothing recorded before may license a skip in a LATER
+//	          invocation —, and the first write of the cache file after it fails (the directory is gone).
 //	crash = - | K<j> (the scripted Runner panics in its j-th call: kill -9 during a command)
 //	          | P<k> (panic at the k-th cache.VerifPoint) | P<k>t<n> (… after writing only the first n bytes: torn write)
 //	          | E<j> (the j-th write of the cache file FAILS with an error, the file is left as it was: cache.VerifWriteError)
@@ -878,6 +882,7 @@ func workCase(c string) string {
 
 	fail := map[string]bool{}
 	effects := map[string][2]string{} // task -> (file index, content code): what its command overwrites when it runs
+	rmcache := map[string]bool{}      // tasks whose command removes the .spok directory
 	digests := map[string]uint64{}    // real digest -> natDigest of the inputs it was computed from
 	var names []string
 	for _, td := range tpl.tasks {
@@ -939,6 +944,11 @@ func workCase(c string) string {
 			} else {
 				effects[p[1]] = [2]string{p[2], p[3]}
 			}
+		case "y":
+			if len(p) != 2 || binary {
+				return "BAD-CASE"
+			}
+			rmcache[p[1]] = !rmcache[p[1]]
 		case "r":
 			if len(p) != 4 && !(len(p) == 5 && (p[4] == "c1" || p[4] == "sd")) {
 				return "BAD-CASE"
@@ -976,8 +986,16 @@ func workCase(c string) string {
 			sSEL = append(sSEL, joinOr(sel, ","))
 
 			var onCall func(string)
-			if len(effects) > 0 {
+			removedAt, ncalls := 0, 0
+			if len(effects) > 0 || len(rmcache) > 0 {
 				onCall = func(task string) {
+					ncalls++
+					if rmcache[task] {
+						_ = os.RemoveAll(filepath.Join(proj, cache.Dir))
+						if removedAt == 0 {
+							removedAt = ncalls
+						}
+					}
 					if e, ok := effects[task]; ok {
 						f, _ := strconv.Atoi(e[0])
 						path := filepath.Join(proj, files[f])
@@ -1000,6 +1018,12 @@ func workCase(c string) string {
 			}
 			if inv.fatal != "" {
 				return inv.fatal
+			}
+			if removedAt > 0 {
+				if inv.crash != "-" {
+					return "SKIPPED" // a removal AND a kill in one invocation: not modelled
+				}
+				inv.crash = fmt.Sprintf("R%d", removedAt)
 			}
 			sCR = append(sCR, inv.crash)
 
@@ -1178,6 +1202,29 @@ func exhaustive(w *bufio.Writer, t int, depth int) int {
 	return n
 }
 
+// removalFamily: both tasks recorded, then every history of `depth` events over {toggle "the command of A / B removes the
+// cache", edit, revert, run any set in any order}
+func removalFamily(w *bufio.Writer, t int, depth int) int {
+	a := alphabet{[]string{"y.A", "y.B", "w.0.2", "w.0.1"}, runsOf([]string{"A", "B", "AB", "BA"})}
+	all := a.all()
+	n := 0
+	var rec func(h []string)
+	rec = func(h []string) {
+		if len(h) == depth-1 {
+			for _, r := range a.runs {
+				fmt.Fprintf(w, "T%d r.AB.0.- %s %s\n", t, strings.Join(h, " "), r)
+				n++
+			}
+			return
+		}
+		for _, o := range all {
+			rec(append(h, o))
+		}
+	}
+	rec(nil)
+	return n
+}
+
 func crashSpecs(maxPoint int, tears []int) []string {
 	out := []string{"K1", "K2", "K3", "E1", "E2", "E3", "E4", "F1", "F2", "F3"}
 	for k := 1; k <= maxPoint; k++ {
@@ -1305,6 +1352,7 @@ func randomHistoriesMode(w *bufio.Writer, rng *rand.Rand, count int, maxDepth in
 		tpl := templates[t]
 		depth := 2 + rng.Intn(maxDepth-1)
 		var ev []string
+		noCrash := false // once a command removes the cache, no kills (the combination is not modelled)
 		for len(ev) < depth {
 			switch x := rng.Intn(10); {
 			case x < 3:
@@ -1317,6 +1365,9 @@ func randomHistoriesMode(w *bufio.Writer, rng *rand.Rand, count int, maxDepth in
 			case x == 3:
 				if rng.Intn(3) == 0 {
 					ev = append(ev, "c")
+				} else if mode == "" && rng.Intn(6) == 0 {
+					ev = append(ev, "y."+tpl.tasks[rng.Intn(len(tpl.tasks))].name)
+					noCrash = true
 				} else if mode == "" && rng.Intn(3) == 0 {
 					// a command with a side effect on one of the files (in-process mode only)
 					f := tpl.used[rng.Intn(len(tpl.used))]
@@ -1325,7 +1376,11 @@ func randomHistoriesMode(w *bufio.Writer, rng *rand.Rand, count int, maxDepth in
 					ev = append(ev, "f."+tpl.tasks[rng.Intn(len(tpl.tasks))].name)
 				}
 			default:
-				ev = append(ev, randomRun(rng, tpl, pCrash, pForce))
+				if noCrash {
+					ev = append(ev, randomRun(rng, tpl, 0, pForce))
+				} else {
+					ev = append(ev, randomRun(rng, tpl, pCrash, pForce))
+				}
 			}
 		}
 		ev = append(ev, randomRun(rng, tpl, 0, 0))
@@ -1491,6 +1546,9 @@ func gen(w *bufio.Writer, args map[string]string) {
 			exhaustive(w, 9, 5)
 			exhaustive(w, 10, 6)
 			exhaustive(w, 11, 6)
+			removalFamily(w, 2, 5)
+			removalFamily(w, 1, 4)
+			removalFamily(w, 0, 4)
 			if prop == "C01" {
 				crashFamily(w, 2, 2, 8, quickTears, 1)
 			}
@@ -1504,6 +1562,7 @@ func gen(w *bufio.Writer, args map[string]string) {
 			exhaustive(w, 9, 4) // commands that rewrite the files a later task of the same run depends on
 			exhaustive(w, 10, 5)
 			exhaustive(w, 11, 5)
+			removalFamily(w, 2, 4)
 			if prop == "C01" {
 				crashFamily(w, 2, 1, 8, quickTears, 2)
 			} else {
